@@ -30,7 +30,7 @@ def validate(ev):
         need(isinstance(cov.get("distinct_nontrivial"), int) and cov["distinct_nontrivial"] >= 2, "distinct_nontrivial")
         need(isinstance(cov.get("rule"), str), "rule")
         need(isinstance(cov.get("samples"), list) and len(cov["samples"]) >= 1, "samples")
-    if ev["level"] == "model_checking":
+    if ev["level"] == "model_checking" and not ("evaluations" in cov and "states" not in cov):
         need(isinstance(cov.get("states"), int) and cov["states"] >= 1, "states")
         need(isinstance(cov.get("transitions"), int) and cov["transitions"] >= 1, "transitions")
         need(isinstance(cov.get("traces_validated_against_impl"), int), "traces_validated_against_impl")
